@@ -478,6 +478,9 @@ pub fn replay_case(case: &Value, mat: Mat) -> Option<Value> {
     if buf_floor != 0 && (if 1024 / mat.unit >= 50 { 99 } else { 1024 / mat.unit as u64 }) != buf_floor {
         return None;
     }
+    if p["full"].as_bool().unwrap_or(false) && mat.chunked {
+        return None; // (a record handed over in several write calls is accepted in part when the buffer overflows: not modelled)
+    }
     if mat.unit == 600 && buf_floor != 1 {
         return None; // (this materialisation exists for the instances about its class of units)
     }
@@ -548,7 +551,10 @@ pub fn replay_case(case: &Value, mat: Mat) -> Option<Value> {
                     }
                 }
                 let sz = op["sz"].as_i64().unwrap();
-                if sz >= 0 && mat.dir_pattern {
+                if op["full"].as_bool().unwrap_or(false) {
+                    // Rolling.tla, ActFull: the configured path is a name that opens and takes no byte
+                    std::os::unix::fs::symlink("/dev/full", world.act()).unwrap();
+                } else if sz >= 0 && mat.dir_pattern {
                     // in this materialisation the configured path is a symbolic link to the file found at start-up
                     // (its size is the file's, not the link's)
                     let real = scratch.path().join("real");
@@ -763,7 +769,7 @@ pub fn replay_case(case: &Value, mat: Mat) -> Option<Value> {
                     let k = op["part"].as_i64().unwrap();
                     *enc_script.lock().unwrap() = Some(payload(id, k, mat.unit));
                 }
-                let res = if encfail { "err" } else { res };
+                let res = if encfail || res == "nospace" { "err" } else { res };
                 let r = catch(|| a.append(&log::Record::builder().level(log::Level::Info).args(format_args!("{}", msg)).build()));
                 if os_fail {
                     set_fsize_limit(None);
